@@ -14,7 +14,7 @@ import numpy as np
 from numpy.typing import DTypeLike
 
 from pyxel.detectors import Detector
-from pyxel.util import get_dtype
+from pyxel.util import convert_to_unsigned, get_dtype
 
 
 def apply_simple_adc(
@@ -72,7 +72,9 @@ def apply_simple_adc(
         / (voltage_max - voltage_min)
     )
 
-    return np.trunc(output).astype(dtype)
+    return convert_to_unsigned(
+        np.trunc(output), bit_resolution=bit_resolution, dtype=dtype
+    )
 
 
 def simple_adc(
